@@ -934,6 +934,11 @@ def run(ctx, load):
     check_list_count(P, ctx)
     check_tuple_terminated(P, ctx)
     from . import seqmodel
+    # iteration yields the sequence: the cursor functions of the three sequence types evaluated on small instances (shared with C11)
+    from .rules_c11 import check_mirrors
+    ctx.borrow('C04.iteration-yields-the-sequence', 12, lambda: check_mirrors(P, ctx, types=('Array', 'List', 'Tuple')))
+    from .rules_c02 import check_size_round
+    check_size_round(P, ctx, helper='Array_Size_Round', rule='C04.layout')
     seqmodel.report_list_ops(P, ctx, 'C04.list-operations', 'valid', site)
     ctx.floor('C04.list-operations', 9)
     seqmodel.report_list_ops(P, ctx, 'C04.array-operations', 'valid', site, T='Array')
